@@ -230,10 +230,6 @@ def wire(doc):
     return {k: v for k, v in doc.items() if k != "layout"}
 
 
-def long_chain_free(doc):
-    return all(len(f["params"]) < 7 for f in doc["files"])
-
-
 # ---------------------------------------------------------------------------------------------------------------------
 # realisation
 # ---------------------------------------------------------------------------------------------------------------------
@@ -423,8 +419,8 @@ class Oracle:
                 return None
         return url, node
 
-    def follow(self, where: str, node, limit=8):
-        """follow a chain of $ref objects (at most `limit` hops) -> (file url, object) | None"""
+    def follow(self, where: str, node, limit=8, count=False):
+        """follow a chain of $ref objects (at most `limit` hops) -> (file url, object[, hops]) | None"""
         hops = 0
         while isinstance(node, dict) and isinstance(node.get("$ref"), str):
             if hops >= limit:
@@ -434,7 +430,7 @@ class Oracle:
                 return None
             where, node = r
             hops += 1
-        return where, node
+        return (where, node, hops) if count else (where, node)
 
     def chain_broken(self, where: str, node, derefs=9) -> bool:
         """does following the chain hit an unresolvable reference within the first `derefs` dereferences?
@@ -455,13 +451,13 @@ class Oracle:
             return None
         out = []
         for e in entries:
-            r = self.follow(where, e)
+            r = self.follow(where, e, count=True)
             if r is None:
                 return None
-            home, p = r
+            home, p, hops = r
             if not isinstance(p, dict) or not isinstance(p.get("name"), str) or not isinstance(p.get("in"), str):
                 return None
-            out.append((home, p))
+            out.append((home, p, hops))
         return out
 
     def path_item(self, path_entry):
